@@ -21,7 +21,7 @@ META = {
     'engine': 'N',
     'technique': 'bounded-exhaustive product of statement kinds x own options x profile/session defaults x configuration mode x timeout argument x protocol version on a real Session, precedence reference',
     'text': 'Statement kinds {SimpleStatement, BoundStatement with own options, BoundStatement inheriting the options of its PreparedStatement, '
-            'BatchStatement} x consistency_level / serial_consistency_level / retry_policy set or unset x fetch_size in {unset, 7, 0, None} x the same '
+            'BatchStatement} x consistency_level in {unset, QUORUM, ANY (numeric value 0)} x serial_consistency_level / retry_policy set or unset x fetch_size in {unset, 7, 0, None} x the same '
             'four defaults custom or default on the profile (legacy mode: Session/Cluster attributes) x the profile-only options (request_timeout, row_factory, '
             'load_balancing_policy, speculative_execution_policy) custom or default x profile selection {default profile, named profile, cloned instance} '
             'or legacy mode x timeout argument {omitted, None, 3.5} x protocol 2/4/5.  Checked: ResponseFuture.timeout / _retry_policy / row_factory / '
@@ -147,13 +147,19 @@ def build(group):
         raise
 
 
+def own_cl(s_cl):
+    """1: QUORUM; 2: ANY, whose numeric value is 0 - a statement's own level is its own even when it is falsy"""
+    from cassandra import ConsistencyLevel as CL
+    return CL.ANY if s_cl == 2 else CL.QUORUM
+
+
 def make_statement(kind, own, env, stmt_retry):
     from cassandra import ConsistencyLevel as CL
     from cassandra.query import SimpleStatement, BoundStatement, BatchStatement
     s_cl, s_serial, s_retry, s_fetch = own
     kw = {}
     if s_cl:
-        kw['consistency_level'] = CL.QUORUM
+        kw['consistency_level'] = own_cl(s_cl)
     if s_serial:
         kw['serial_consistency_level'] = CL.SERIAL
     if s_retry:
@@ -192,7 +198,7 @@ def run_group(group, only=None):
     try:
         for kind in KINDS:
             fetches = FETCHES if kind != 'batch' else ['unset']
-            for s_cl, s_serial, s_retry, s_fetch in itertools.product((0, 1), (0, 1), (0, 1), fetches):
+            for s_cl, s_serial, s_retry, s_fetch in itertools.product((0, 1, 2), (0, 1), (0, 1), fetches):
                 for targ in TIMEOUT_ARGS:
                     own = (s_cl, s_serial, s_retry, s_fetch)
                     if only is not None and only != (kind, list(own), targ):
@@ -216,13 +222,13 @@ def run_group(group, only=None):
                     w.pump()
                     reqs = [(w.conns[vid].endpoint.address, r) for vid, _, r in srv.received[n0:] if r['op'] in ('QUERY', 'EXECUTE', 'BATCH')]
                     # ---- expectation by the precedence rule
-                    e_cl = ref.effective(CL.QUORUM if s_cl else ref.UNSET, d['cl'])
+                    e_cl = ref.effective(own_cl(s_cl) if s_cl else ref.UNSET, d['cl'])
                     e_serial = ref.effective(CL.SERIAL if s_serial else ref.UNSET, d['serial'])
                     e_retry = ref.effective(stmt_retry if s_retry else ref.UNSET, d['retry'])
                     e_fetch = ref.effective(ref.UNSET if s_fetch == 'unset' else s_fetch, d['fetch'])
                     e_timeout = ref.effective(ref.UNSET if targ == 'omitted' else targ, d['timeout'])
                     where = '%s/%s' % (kind, 'legacy' if mode == 'legacy' else mode)
-                    overriding = sum([s_cl, s_serial, s_retry, s_fetch != 'unset', targ != 'omitted'])
+                    overriding = sum([bool(s_cl), s_serial, s_retry, s_fetch != 'unset', targ != 'omitted'])
                     if overriding and (any(pbits) or pextra):
                         part.mark_nontrivial(repr((group, kind, own, targ)))
                     part.outcome((kind, e_cl, e_serial, ref.wire_page_size(e_fetch) if kind != 'batch' else '-', e_timeout))
